@@ -123,8 +123,9 @@ func c18EncodeInfer(mode string, limit int, link bool, acct string, names, conte
 	return strings.Replace(in, ";files=", ";cmd=infer;acct="+vesc(acct)+";files=", 1)
 }
 
-// c18InferFiles: placeholder account, training file and target file as the C15 generator makes them
-func c18InferFiles(r *rng) (ph, train, target string) {
+// c18InferFiles: placeholder account, training file and target file as the C15 generator makes them; the target
+// is made of `pieces` targets of that generator (0: one to four)
+func c18InferFiles(r *rng, pieces int) (ph, train, target string) {
 	g := &c15gen{r: r, ph: "Expenses:TBD"}
 	if r.chance(30) {
 		g.ph = pick(r, []string{"Unknown:X", "TBD", "Ausgaben:Ünbekannt"})
@@ -138,7 +139,10 @@ func c18InferFiles(r *rng) (ph, train, target string) {
 	g.pool = perm[:k]
 	train = g.training()
 	// several transactions, so that the rewritten target is long enough for faults in the middle
-	n := r.rangeInt(1, 4)
+	n := pieces
+	if n == 0 {
+		n = r.rangeInt(1, 4)
+	}
 	for i := 0; i < n; i++ {
 		t := g.target()
 		for try := 0; try < 8 && n > 1 && strings.HasSuffix(t, " open\n"); try++ {
@@ -158,13 +162,13 @@ func c18InferFiles(r *rng) (ph, train, target string) {
 func genC18Infer(out *caseWriter, seed uint64, n, points int) {
 	for g := 0; g < n; g++ {
 		r := newRng(seed, "C18infer", g)
-		ph, train, target := c18InferFiles(r)
+		ph, train, target := c18InferFiles(r, 0)
 		names, contents := []string{"training.knut", "target.knut"}, []string{train, target}
 		if g%4 == 3 {
 			names, contents = []string{"target.knut"}, []string{target}
 		}
 		link := g%3 == 2
-		maxLen := len(target) + 60
+		maxLen := 2*len(target) + 100 // the rewritten target is aligned in columns: up to about twice as long
 		out.add(fmt.Sprintf("C18it-%d-%d", seed, g), "C18.trace", c18EncodeInfer("strace", 0, link, ph, names, contents))
 		for p := 0; p < points+2; p++ {
 			limit := p
@@ -278,11 +282,11 @@ func genC18Sweep(out *caseWriter, seed uint64, n int, _ []string) error {
 		for limit := 0; limit <= len(c)+120; limit++ {
 			out.add(fmt.Sprintf("C18s-%d-%d-%d", seed, g, limit), "C18.fault", c18Encode("rlimit", limit, names, contents))
 		}
-		if g%4 == 0 {
-			// `infer --inplace`: every byte offset of the rewritten target
+		if g%8 == 0 {
+			// `infer --inplace`: every byte offset of the rewritten (short) target
 			ri := newRng(seed, "C18infersweep", g)
-			ph, train, target := c18InferFiles(ri)
-			for limit := 0; limit <= len(target)+60; limit++ {
+			ph, train, target := c18InferFiles(ri, 1)
+			for limit := 0; limit <= 2*len(target)+100; limit++ {
 				out.add(fmt.Sprintf("C18is-%d-%d-%d", seed, g, limit), "C18.fault",
 					c18EncodeInfer("rlimit", limit, false, ph, []string{"training.knut", "target.knut"}, []string{train, target}))
 			}
